@@ -11,7 +11,7 @@ using namespace std;
 
 // '*' and ';' stand for the printable characters the compilers write unescaped but the scanner's plain-text
 // class lacks (* ; < > ^ ` |), see the known finding F32.
-static const string kAlpha = string("a \\#$:%~*;") + "\xC3";
+static string kAlpha = string("a \\#$:%~*;") + "\xC3";   // alpha=<hex> replaces it (second pass: the other name characters)
 
 // R-depfile: the compilers' quoting.  `escape_colon`: some producers write "\:" for a colon.
 static string Encode(const string& n, bool escape_colon) {
@@ -43,9 +43,9 @@ static bool Representable(const string& n, bool as_target, bool escape_colon = f
   if (bs % 2) return false;                          // an odd run of trailing backslashes merges with the separator;
                                                      // an even one is written as it is and ends the name (2N stay 2N)
   for (size_t i = 0; i + 1 < n.size(); ++i) {
-    // a backslash before '#' always reads as an escape; before ':' it does unless the producer escapes
+    // backslashes before '#' are representable: the compilers add one, the scanner takes one off and keeps the rest
+    // (N backslashes + '#' are written as N+1 + '#'); before ':' a backslash reads as an escape unless the producer escapes
     // colons ("a\\:b" for the name "a\:b": the last backslash belongs to the colon, the others are literal)
-    if (n[i] == '\\' && n[i + 1] == '#') return false;
     if (n[i] == '\\' && n[i + 1] == ':' && !escape_colon) return false;
     if (n[i] == ':' && n[i + 1] == ' ') return false;                          // reads as end of target
     if (n[i] == '$' && n[i + 1] == '$') {}                                     // fine: "$$$$"
@@ -132,6 +132,7 @@ int main(int argc, char** argv) {
     if (!good) printf("VIOLATION: %s\n", why.c_str());
     return good ? 0 : 1;
   }
+  if (a.Has("alpha")) kAlpha = vx::Unhex(a.Get("alpha"));
   int maxlen = (int)a.GetInt("maxlen", 3), pairlen = (int)a.GetInt("pairlen", 2);
   long shard = a.GetInt("shard", 0), nshards = a.GetInt("nshards", 1);
   vector<string> names;
